@@ -275,8 +275,9 @@ def synthetic(ctx):
 
 
 TYPED = {b'mdhd': 0, b'mvhd': 1, b'tkhd': 2, b'mehd': 3, b'tfdt': 4, b'mfhd': 5, b'trex': 6, b'tfhd': 7, b'trun': 8, b'saio': 9, b'tenc': 10,
-         b'pssh': 11, b'sidx': 12, b'saiz': 13, b'btrt': 14, b'pasp': 15, b'frma': 16, b'schm': 17, b'senc': 18}
-PLAIN = {b'btrt', b'pasp', b'frma'}          # not full boxes: no version / flags word
+         b'pssh': 11, b'sidx': 12, b'saiz': 13, b'btrt': 14, b'pasp': 15, b'frma': 16, b'schm': 17, b'senc': 18, b'emsg': 19, b'hdlr': 20,
+         b'ftyp': 21, b'styp': 21}
+PLAIN = {b'btrt', b'pasp', b'frma', b'ftyp', b'styp'}          # not full boxes: no version / flags word
 VISUAL = {b'avc1', b'avc3', b'hev1', b'hvc1', b'encv'}
 AUDIO = {b'mp4a', b'enca', b'ec-3', b'ac-3'}
 # index into the model's value list -> library attribute (numeric fields only; times are datetimes in the library)
@@ -297,6 +298,14 @@ FIELD_MAP = {
     b'btrt': {0: 'bufferSizeDB', 1: 'maxBitrate', 2: 'avgBitrate'},
     b'pasp': {0: 'h_spacing', 1: 'v_spacing'},
     b'schm': {3: 'scheme_version'},
+    # emsg: the numbers sit after the strings in version 0 and before them in version 1; strings compared without the NUL
+    b'emsg': lambda version: ({0: 'version', 2: 'scheme_id_uri', 3: 'value', 4: 'timescale', 5: 'presentation_time_delta',
+                               6: 'event_duration', 7: 'event_id'} if version == 0 else
+                              {0: 'version', 2: 'timescale', 3: 'presentation_time', 4: 'event_duration', 5: 'event_id',
+                               6: 'scheme_id_uri', 7: 'value'} if version == 1 else {0: 'version'}),
+    b'hdlr': {3: 'handler_type'},
+    b'ftyp': {0: 'major_brand', 1: 'minor_version'},
+    b'styp': {0: 'major_brand', 1: 'minor_version'},
 }
 
 
@@ -369,8 +378,12 @@ def typed_params(typ, payload):
     """(version, flags, n1, n2) read straight from the bytes"""
     version, flags = payload[0], int.from_bytes(payload[1:4], 'big')
     n1 = n2 = 0
+    if typ in (b'ftyp', b'styp'):
+        return 0, 0, (len(payload) - 8) // 4, 0
     if typ in PLAIN:
         return 0, 0, 0, 0
+    if typ == b'hdlr':
+        return version, flags, len(payload) - 24, 0
     if typ == b'schm':
         n1 = len(payload) - 12 if flags & 1 else 0
     elif typ == b'trun':
@@ -425,6 +438,8 @@ def typed_corr(ctx, blobs):
         for b in flat:
             if b.type not in TYPED or len(b.payload) < 4 or len(b.payload) > 4000:
                 continue
+            if (b.type in (b'ftyp', b'styp') and (len(b.payload) < 8 or len(b.payload) % 4)) or (b.type == b'hdlr' and len(b.payload) < 24):
+                continue                     # trailing bytes of a brand list / a truncated hdlr: not a layout the model lists
             extra = []
             if b.type == b'senc':
                 sp = senc_params(b, parent_of.get(id(b)), iv_for(name) if ':' in name else 8)
@@ -441,10 +456,13 @@ def typed_corr(ctx, blobs):
             atom = by_pos.get(b.start)
             fields = {}
             if atom is not None:
-                for idx, attr in FIELD_MAP.get(b.type, {}).items():
+                fmap = FIELD_MAP.get(b.type, {})
+                if callable(fmap):
+                    fmap = fmap(version)
+                for idx, attr in fmap.items():
                     try:
                         v = getattr(atom, attr)
-                        fields[idx] = int(v)
+                        fields[idx] = v.encode('utf-8') if isinstance(v, str) else bytes(v) if isinstance(v, (bytes, bytearray)) else int(v)
                     except Exception:  # noqa
                         pass
             if b.type == b'senc' and atom is not None:
@@ -468,7 +486,11 @@ def typed_corr(ctx, blobs):
             ctx.disagree('typed layout', inp, {'left over': len(rest), 're-encodes': pre == [payload]}, 'whole payload, byte exact')
             continue
         for idx, want in fields.items():
-            got = vals[idx][1] if idx < len(vals) and vals[idx][0] == 0 else None
+            if isinstance(want, bytes):          # a string field: the model's raw bytes without the NUL terminator(s)
+                got = bytes(vals[idx][1]).rstrip(b'\0') if idx < len(vals) and vals[idx][0] == 1 else None
+                want = want.rstrip(b'\0')
+            else:
+                got = vals[idx][1] if idx < len(vals) and vals[idx][0] == 0 else None
             if got != want:
                 ok = False
                 ctx.disagree('typed field %d' % idx, inp, got, want)
